@@ -345,6 +345,23 @@ func boundaryTour(res *core.Result, r *core.RNG) (*srv.World, error) {
 	deliver(res, w, a.report(w, d0, w.Now, 800, d0.K), "udp-valid", true)
 	deliver(res, w, r.Bytes(80), "udp-random80", true)
 	deliver(res, w, r.Bytes(200), "udp-random200", true)
+	// short datagrams over the real socket (the listener's buffer is zero-filled: a report whose
+	// signature ends in a zero byte, cut to 79 bytes, would be completed by the buffer if the length
+	// check were missing) and a long one (valid leading 80 bytes)
+	for p := uint64(900); p < 900+20000; p++ {
+		z := a.report(w, d1, w.Now-5, p, d1.K)
+		if z[79] == 0 {
+			deliver(res, w, z[:79], "udp-short79-zero-tail", true)
+			if z[78] == 0 {
+				deliver(res, w, z[:78], "udp-short78-zero-tail", true)
+			}
+			break
+		}
+	}
+	sh := a.report(w, d1, w.Now-6, 820, d1.K)
+	deliver(res, w, sh[:79], "udp-short79", true)
+	deliver(res, w, sh[:1], "udp-short1", true)
+	deliver(res, w, append(append([]byte{}, a.report(w, d1, w.Now-7, 830, d1.K)...), r.Bytes(33)...), "udp-long-valid-prefix", true)
 	w.SnapHop()
 	return w, nil
 }
@@ -629,7 +646,7 @@ func reportsWorker(res *core.Result, r *core.RNG, tier, out string) error {
 		}
 		finishWorld(res, w, &items)
 	}
-	res.Required = []string{"dgram.now+432", "dgram.now+433", "dgram.now-432", "dgram.now-433", "dgram.power0", "dgram.power1", "dgram.power2",
+	res.Required = []string{"dgram.udp-short79-zero-tail", "dgram.udp-short79", "dgram.udp-long-valid-prefix", "dgram.now+432", "dgram.now+433", "dgram.now-432", "dgram.now-433", "dgram.power0", "dgram.power1", "dgram.power2",
 		"dgram.short79", "dgram.long-valid-prefix", "dgram.signed-by-other-device", "dgram.signed-by-gca", "dgram.signed-by-server", "dgram.unknown-id",
 		"dgram.banned-device", "dgram.bitflip", "dgram.field-swap", "dgram.window-start-1", "dgram.window-start", "dgram.window-end-1", "dgram.window-end",
 		"dgram.lowclock-ts0", "dgram.highclock", "dgram.malleated-twin", "outcome.changed"}
